@@ -340,10 +340,15 @@ def run(ctx):
     for ddef, hist in corner_histories():
         check_dfa_history(ctx, ddef, hist, [ddef], "corner")
     nmax = ctx.n(6, 7)
-    for i in range(ctx.n(330, 6000)):
+    for i in range(ctx.n(900, 9000)):
         pick = i % 10
         if pick < 5:
             ddef, tag = gen.rand_dfa_def(rng, nmax=nmax), "random"
+            for _ in range(3):      # the plain generator gives many empty languages; keep a few
+                probe = mk_dfa(ddef)
+                if not probe.isempty() or rng.random() < 0.15:
+                    break
+                ddef = gen.rand_dfa_def(rng, nmax=nmax)
         elif pick < 9:
             ddef, tag = c13.dag_dfa_def(rng, nmax=nmax), "dag"
         else:
@@ -353,7 +358,7 @@ def run(ctx):
         prof = dfa_profile(ddef)
         ctx.tally("lang_empty" if prof["empty"] else ("lang_finite" if prof["finite"] else "lang_infinite"))
         check_dfa_history(ctx, ddef, rand_history(rng, prof, other_defs), other_defs, tag)
-    for i in range(ctx.n(120, 2500)):
+    for i in range(ctx.n(300, 3000)):
         ndef = gen.rand_nfa_def(rng)
         sigma = "".join(sorted(ndef["input_symbols"]))
         other_defs = [gen.rand_nfa_def(rng, nmax=4, alphabet=sigma), ndef]
